@@ -1303,6 +1303,33 @@ func main() {
 	} else {
 		fmt.Println("Generated.v unchanged")
 	}
+	// synchronisation skeletons of the shutdown protocol (C07): a file of their own, next to
+	// Generated.v, so that a change there does not rebuild the whole development
+	{
+		var sw bytes.Buffer
+		fmt.Fprintf(&sw, "(* GeneratedSkel.v — REGENERATED FROM /repo ON EVERY RUN by /verif/gen (gen/skel.go). Do not edit. *)\n")
+		fmt.Fprintf(&sw, "From Scrapli Require Import Bytes.\nFrom Coq Require Import List.\nImport ListNotations.\n\n")
+		var ents []string
+		for _, sf := range skeletonFuncs {
+			var ts []string
+			for _, t := range skeletonOf(sf[1], sf[2]) {
+				if strings.ContainsAny(t, "\"\\") {
+					die("skeleton token with a quote: %s", t)
+				}
+				ts = append(ts, "bs \""+t+"\"")
+			}
+			ents = append(ents, fmt.Sprintf("  (* %s %s *)\n  (bs \"%s\",\n   [%s])", sf[1], sf[2], sf[0], strings.Join(ts, ";\n    ")))
+		}
+		fmt.Fprintf(&sw, "Definition sync_skeleton : list (bytes * list bytes) := [\n%s].\n", strings.Join(ents, ";\n"))
+		sp := filepath.Join(filepath.Dir(*out), "GeneratedSkel.v")
+		olds, _ := os.ReadFile(sp)
+		if !bytes.Equal(olds, sw.Bytes()) {
+			if err := os.WriteFile(sp, sw.Bytes(), 0o644); err != nil {
+				die("%v", err)
+			}
+			fmt.Println("GeneratedSkel.v rewritten")
+		}
+	}
 	if *inv != "" {
 		_ = os.MkdirAll(filepath.Dir(*inv), 0o755)
 		j, _ := json.MarshalIndent(map[string]interface{}{"fingerprints": fps, "regexes": regexes,
